@@ -28,7 +28,7 @@ def build(tier, seed):
                 items.append((Harness(hn, {"schedule": sched, "matrix": name, "iteration_limit": lim, "arithmetic": "checker-supplied exact integer min-sum (i32)",
                                             "input": "%d LLRs, every integer in [-2^20, 2^20]" % n}, w,
                                       # on trees min-sum converges: a failure after >= 2 iterations is unreachable there (1 of the 3 witnesses)
-                                      covers=(2 if lim >= 2 else None)),
+                                      covers=(2 if (lim >= 2 or (lim >= 1 and name.startswith("all"))) else None)),  # enumerated 2-row matrices include ones that always converge in one iteration
                               "crate::c03_sched!(%s, %s, %s, h_%s, HB_%s, %d, %d, %d, %d);" % (hn, sched, reffn, name, name, r, n, lim, unw)))
     meta = {
         "functions": ["flooding::Decoder<A>::{new, decode, initialize, process_check_nodes, process_variable_nodes} with A = checker-supplied MinSumI32",
